@@ -10,7 +10,8 @@ Conventions
   `segmentIdx - shadowableSegment` (the comparisons are rewritten with the subtrahend on the other side).
 * An unrecovered Go panic is `Except.error` with the reason.
 * `fix : Patch` selects the proposed patches (`Patch.none` = the code as it is): `deps` patches
-  `dependenciesCompleted` (F15, F20), `shadow` patches `markShadowedUnits` (F19).
+  `dependenciesCompleted` (F15, F20), `shadow` patches `markShadowedUnits` (F19), `stageIdx` makes the worker
+  request carry the graph's stage index (F21: stage index shift when NewStages skips the store stages).
 -/
 namespace SV.Stg
 open SV
@@ -18,6 +19,10 @@ open SV
 inductive UnitState where
   | pending | partialPresent | scheduled | merging | shadowed | completed | noOp
 deriving DecidableEq, Repr, Inhabited
+
+/-- progress of a unit through its life: Pending/NoOp < Shadowed/Scheduled < PartialPresent < Merging < Completed -/
+def rank : UnitState → Nat
+  | .pending => 0 | .noOp => 0 | .shadowed => 1 | .scheduled => 1 | .partialPresent => 2 | .merging => 3 | .completed => 4
 
 inductive Kind where
   | map | store
@@ -38,12 +43,13 @@ deriving DecidableEq, Repr, Inhabited
 
 /-- which of the proposed patches are applied -/
 structure Patch where
-  deps   : Bool     -- dependenciesCompleted
-  shadow : Bool     -- markShadowedUnits
+  deps     : Bool     -- dependenciesCompleted
+  shadow   : Bool     -- markShadowedUnits
+  stageIdx : Bool     -- the tier2 request carries the stage's index in the graph, not its position in Stages.stages
 deriving DecidableEq, Repr, Inhabited
 
-def Patch.none : Patch := ⟨false, false⟩
-def Patch.all : Patch := ⟨true, true⟩
+def Patch.none : Patch := ⟨false, false, false⟩
+def Patch.all : Patch := ⟨true, true, true⟩
 
 structure WorkUnit where
   seg   : Nat
@@ -148,22 +154,22 @@ def shadowableSeg (s : Stages) (seg : Nat) : Bool :=
 `fix.shadow` is the PROPOSED PATCH: only a Pending (or already Shadowed) unit is shadowed — never one whose
 partial is present, that is being merged or that is scheduled — and not under a unit that is already Merging
 (its job is over and will never turn the shadowed unit into PartialPresent). -/
+def shadowCond (fix : Patch) (st nx : UnitState) : Bool :=
+  if fix.shadow then
+    (st == .pending || st == .shadowed) && (nx == .pending || nx == .scheduled || nx == .shadowed)
+  else
+    (st != .completed && st != .noOp) && (nx == .pending || nx == .scheduled || nx == .merging || nx == .shadowed)
+
 def markShadowedLoop (fix : Patch) (seg : Nat) : Nat → Stages → Bool → Except Err (Stages × Bool)
   | 0, s, sh => .ok (s, sh)
   | k + 1, s, sh =>
     -- stageIdx = k
     if k + s.shadowable < seg then .ok (s, sh)    -- stageIdx >= relSegmentOrdinal fails: loop ends
-    else
-      let st := s.getState seg k
-      let nx := s.getState seg (k + 1)
-      let condA : Bool := if fix.shadow then st == .pending || st == .shadowed else st != .completed && st != .noOp
-      let condB : Bool := if fix.shadow then nx == .pending || nx == .scheduled || nx == .shadowed
-                          else nx == .pending || nx == .scheduled || nx == .merging || nx == .shadowed
-      if condA && condB then
-        match s.setState seg k .shadowed with
-        | .error e => .error e
-        | .ok s' => markShadowedLoop fix seg k s' true
-      else markShadowedLoop fix seg k s sh
+    else if shadowCond fix (s.getState seg k) (s.getState seg (k + 1)) then
+      match s.setState seg k .shadowed with
+      | .error e => .error e
+      | .ok s' => markShadowedLoop fix seg k s' true
+    else markShadowedLoop fix seg k s sh
 
 def markShadowedUnits (fix : Patch) (s : Stages) (seg : Nat) : Except Err (Stages × Bool) :=
   if !s.shadowableSeg seg then .ok (s, false)
@@ -374,6 +380,14 @@ structure Cfg where
 deriving DecidableEq, Repr
 
 namespace Cfg
+/-- what the request planner guarantees (`plan.BuildTier1RequestPlan` after `computeLinearHandoffBlockNum`): a
+positive segment size, and ranges that end on a segment boundary (the hand-off block) -/
+def OK (c : Cfg) : Prop :=
+  0 < c.interval ∧
+  (∀ r, c.buildStores = some r → 0 < r.stop ∧ r.stop % c.interval = 0) ∧
+  (∀ r, c.writeExecOut = some r → 0 < r.stop ∧ r.stop % c.interval = 0) ∧
+  -- `exec.computeStages` closes a stage at every store layer: only the last stage can be a mapper stage
+  (∀ i, i + 1 < c.graph.length → (c.graph.getD i ⟨.map, []⟩).kind = .store)
 def storesSegmenter (c : Cfg) : Option Segmenter := c.buildStores.map fun r => ⟨c.interval, r.start, r.stop⟩
 def writeOutSegmenter (c : Cfg) : Option Segmenter := c.writeExecOut.map fun r => ⟨c.interval, r.start, r.stop⟩
 def backprocessSegmenter (c : Cfg) : Option Segmenter :=
